@@ -39,6 +39,22 @@ CHECKS["C15"]=dict(cat="exploration", engine="xplore", design="DESIGN.md §3 C15
    technique="deviation-bounded exhaustive enumeration (roots over 11 sites and groups over 10 sites within <=3/<=4 deviations of empty and full baselines x 5 versions; all 25 conversion pairs) through the real WmoWriter/WmoParser/parse_wmo/WmoConverter, judged by an independent chunk walker, per-field content equality and byte-identical second write",
    text="Every root/group within the deviation bound x version, and every conversion pair, is written, walked by an independent chunk walker (tiling, counts, string-offset tables), parsed by both parsers and rewritten on the real code.",
    note="Trusted: props/c15/src/walk.rs. Only fields with a counterpart in the parsed type are compared; derived fields excluded.")
+CHECKS["C14"]=dict(cat="exploration", engine="xplore", design="DESIGN.md §3 C14",
+   technique="deviation-bounded exhaustive enumeration of builder inputs (26 sites / 82 site values within <=2 (quick) / <=3 (thorough) deviations of a minimal, a full and a staggered baseline x 6 versions) through the real AdtBuilder/serialiser/parse_adt and 3 rounds of parse->rebuild on two paths, judged by an independent chunk walker (tiling, MHDR/MCIN/MCNK offset tables), content equality with the input and no-growth/fixed-point relations",
+   text="Every builder input within the deviation bound x version is built, serialised, walked by an independent chunk walker, parsed and compared with the input; then parse->rebuild->serialise is iterated three times on both rebuild paths and checked for content stability and no growth.",
+   note="Trusted: props/c14/src/walker.rs. Both documented conventions for MCIN sizes / sub-offset bases are accepted as long as a file sticks to one. Builder refusals (documented) are accepted.")
+CHECKS["C06"]=dict(cat="model_checking", engine="histbfs", design="DESIGN.md §3 C06",
+   technique="explicit-state search over the real implementation: states are closed archive images (canonical key = file bytes minus the time-stamped attributes payload) plus the reference map; from every state every operation sequence up to length L over the add/replace/remove/rename/compact/flush alphabet is executed on a real MutableArchive, closed, reopened and compared with a BTreeMap driven by the library's own return values; successor images are deduplicated and expanded for several epochs; plus scripted long histories",
+   text="Bounded-exhaustive over operation histories from 6 (quick) / 20 (thorough) initial archives (V1..V4 x listfile x attributes from the real builder, plus independently written archives with 4- and 8-slot hash tables): every sequence of <=2 operations per epoch over a 28..93-event alphabet with colliding names, other-spelling names, four content classes and five add options, chained over 2-3 epochs through deduplicated archive states. Every transition is executed on the real code (no separate model to conform).",
+   note="Trusted: the reference BTreeMap; refimpl::mpqref for small-table initial archives. Judged only after close+reopen. Known findings prune their successors (count in evidence).")
+CHECKS["C08"]=dict(cat="model_checking", engine="histbfs", design="DESIGN.md §3 C08",
+   technique="explicit-state search to closure over the model chain state (ordered (archive, priority, insertion rank) lists over 4 archives x 3 priorities), every enabled event executed on a real PatchChain rebuilt by history replay and every pool name looked up against the model; plus exhaustive enumeration of COPY/BSD0 patch files from an independent encoder (well-formed and every field/payload byte altered) read through a real base+patch chain",
+   text="The chain state space is finite and explored to closure (10k states, 136k transitions in quick): add/remove/set_priority/clear/parallel add/parallel constructors from every reachable state, each executed on the real PatchChain and compared (read_file, contains_file, find_file_archive, list) with a stable-sorted reference list. Patch application: all control programs of <=2 triples over boundary values x 4 base files, plus every 32-bit header field x 8 boundary values and every payload byte x 2 flips; Ok results must match the declared digest.",
+   note="Trusted: refimpl::ptch (independent PTCH/BSD0/RLE encoder and reference applier), refimpl::mpqref (patch-flagged entries), MD5. Tie order after set_priority accepts both readings.")
+CHECKS["C09"]=dict(cat="model_checking", engine="sched", design="DESIGN.md §3 C09, §2 E3",
+   technique="stateless exploration under a controlled scheduler: wow-mpq compiled against a loom-backed rayon stand-in, every interleaving of task claim/start/finish up to preemption bound 2 (quick) / 3 (thorough) executed on the real extraction entry points and compared with sequential reads; plus an exhaustive configuration sweep (threads x batch x list length x skip x missing position) on the real rayon",
+   text="Schedules: 641 cases (10 entry points x request lists from {p,q,duplicate,missing,unreadable} in every order x skip x workers 1..3) each run under loom::model; 165k schedules in quick; every schedule's result is compared slot-by-slot with Archive::read_file and the result set per case must be a singleton. Configurations: the full 7x5x9x2x4 product on real rayon decides the configuration clause.",
+   note="Trusted: loom; the rayon contract modelled by /verif/harness-sched/rayon. Code between loom operations is atomic to the explorer (data races inside a task body are out of reach).")
 NOT_APPLICABLE = {}
 def main():
     checks=[]
@@ -70,7 +86,9 @@ def main():
         "add_only": True,
       },
       "engines": [
-        {"name":"xplore","path":"/verif/harness/vcore","serves_properties":sorted(CHECKS),"kind_free_text":"bounded-exhaustive enumerator over finite case spaces with worker subprocesses, crash/hang attribution, deterministic double replay, known-finding matcher"},
+        {"name":"xplore","path":"/verif/harness/vcore","serves_properties":sorted(k for k,v in CHECKS.items() if v["engine"]=="xplore"),"kind_free_text":"bounded-exhaustive enumerator over finite case spaces with worker subprocesses, crash/hang attribution, deterministic double replay, known-finding matcher"},
+        {"name":"histbfs","path":"/verif/harness/props/c06, /verif/harness/props/c08","serves_properties":sorted(k for k,v in CHECKS.items() if v["engine"]=="histbfs"),"kind_free_text":"explicit-state search over the real implementation: states reached by history replay, canonical-key dedup, reference model compared at every transition"},
+        {"name":"sched","path":"/verif/harness-sched","serves_properties":sorted(k for k,v in CHECKS.items() if v["engine"]=="sched"),"kind_free_text":"loom controlled scheduler with a loom-backed rayon stand-in ([patch.crates-io]) and loom-backed std::sync facade for storm-ffi"},
       ],
       "checks": checks,
       "not_applicable": na,
